@@ -24,6 +24,13 @@ NOTES = ("All checks are property-based tests / fuzzers over generated inputs (D
 NOT_YET = {}
 
 TEXT = {
+    "C16": {
+        "engine": "engine-S",
+        "technique": "fault injection: enumeration of truncation points (every offset of small files, header, block boundaries, block heads, strided payload) plus generated cuts on samples and synthesised files; crash/hang oracle in a forked sanitised child running load, query battery, default save, copy, destruction",
+        "level_text": "Every prefix in the enumerated set of each of the 26 samples (all offsets for small files; around every block boundary and array-count region for the others) and thousands of random cuts incl. synthesised files of every block type are loaded, queried, saved and destroyed under ASan/UBSan; any report, signal or reproduced hang is a violation. Exhaustive only for the small files' offsets.",
+        "level_note": "Truncation only shortens what is read (missing bytes read as zero/garbage from an exhausted stream), so allocation sizes stay bounded by the original file; partition/segment queries are excluded from the post-load battery.",
+        "design_ref": "DESIGN.md section 3, C16",
+    },
     "C15": {
         "engine": "engine-S",
         "technique": "fault injection driven by property-based generation: every reference field located exactly (hook H3) and overwritten by each corruption kind; crash/hang oracle in a forked sanitised child running load, query battery, copy, default save, reload",
